@@ -128,29 +128,90 @@ def run(P, rep, tier):
     writers = sorted({f for f in P.fns if f.lib == 'Encoder' for ev, n in f.calls('write_obu_header')}, key=lambda f: f.line)
     if len(writers) < 4:
         raise AnalysisBroken('only %d OBU writers found' % len(writers))
+
+    # --- expression helpers: inline single-definition locals, substitute parameters by actual arguments
+    def single_defs(f):
+        d = {}
+        for ev in f.events(('decl', 'st')):
+            e = ev.get('e')
+            if ev['k'] == 'decl':
+                d.setdefault(ev['n'], []).append(e)
+            elif e and e[0] in ('a', 'u'):
+                t = strip(e[2])
+                if t and t[0] == 'v' and t[2] == 'l':
+                    d.setdefault(t[1], []).append(e[3] if e[0] == 'a' and e[1] == '=' else 'step')
+        return {k: v[0] for k, v in d.items() if len(v) == 1 and v[0] is not None and v[0] != 'step'}
+
+    def expand(f, e, env=None, depth=0):
+        """canonical string of e inside f: casts dropped, single-definition locals inlined, parameters replaced via env"""
+        e = strip(e)
+        if e is None or depth > 10:
+            return '?'
+        k = e[0]
+        if k == 'l':
+            return str(e[1])
+        if k == 'v':
+            if env is not None and e[1] in env:
+                return env[e[1]]
+            sd = single_defs(f)
+            if e[2] == 'l' and e[1] in sd:
+                return expand(f, sd[e[1]], env, depth + 1)
+            return e[1]
+        if k == 'b':
+            return '(%s %s %s)' % (expand(f, e[2], env, depth + 1), e[1], expand(f, e[3], env, depth + 1))
+        if k == 'c':
+            return '%s(%s)' % (callee_name(e) or '?', ', '.join(expand(f, a, env, depth + 1) for a in e[2]))
+        if k == 'u':
+            return e[1] + expand(f, e[2], env, depth + 1)
+        if k == 'q':
+            return '(%s ? %s : %s)' % (expand(f, e[1], env, depth + 1), expand(f, e[2], env, depth + 1), expand(f, e[3], env, depth + 1))
+        return pstr(e)
+
+    def summaries(f, env=None, depth=0):
+        """(gaps, vals) produced by calling into f: gap = argument of svt_aom_uleb_size_in_bytes in a function that also moves
+        memory; val = (payload-size argument, buffer argument) of write_uleb_obu_size.  Follows static helpers of the same file."""
+        gaps, vals = [], []
+        moves = any(n in ('memmove', 'svt_memmove', 'memcpy') for ev, n in f.calls())
+        for ev, n in f.calls():
+            if n == 'svt_aom_uleb_size_in_bytes' and moves and f is not P.fn('write_uleb_obu_size'):
+                gaps.append((expand(f, ev['e'][2][0], env), ev, f))
+            elif n == 'write_uleb_obu_size' and len(ev['e'][2]) >= 3:
+                vals.append((expand(f, ev['e'][2][1], env), expand(f, ev['e'][2][2], env), ev, f))
+            elif n and depth < 2:
+                for g in P.resolve(n, f):
+                    if g.file == f.file and not g.nocfg and g.name not in ('write_uleb_obu_size', 'write_obu_header') and g not in writers:
+                        if not any(True for _ in g.calls(('svt_aom_uleb_size_in_bytes', 'write_uleb_obu_size'))):
+                            continue
+                        env2 = {pn: expand(f, a, env) for (pn, pt), a in zip(g.params, ev['e'][2])}
+                        g2, v2 = summaries(g, env2, depth + 1)
+                        gaps += [(x, ev, f) for x, _, _ in g2]
+                        vals += [(x, d, ev, f) for x, d, _, _ in v2]
+        return gaps, vals
+
     for f in writers:
+        gaps, vals = summaries(f)
         for hev, n in f.calls('write_obu_header'):
-            D = pstr(strip(hev['e'][2][2]))
-            sizes = [ev for ev, n2 in f.calls('write_uleb_obu_size') if pstr(strip(ev['e'][2][2])) == D]
-            good = [s for s in sizes if f.ev_postdominates(s, hev) or hev['b'] == s['b']]
+            D = expand(f, hev['e'][2][2])
             key = '%s/obu@%s' % (f.name, ptext(strip(hev['e'][2][0])))
+            good = [v for v in vals if v[1] == D and (f.ev_postdominates(v[2], hev) or hev['b'] == v[2]['b'])]
             if not good:
-                rep.ob('C02.FRAME', key, False, f.loc(hev), 'write_obu_header(.., %s) is not followed on every path by write_uleb_obu_size(.., .., %s)' % (D, D))
+                rep.ob('C02.FRAME', key, False, f.loc(hev), 'write_obu_header(.., %s) is not followed on every path by a size field written on the same buffer '
+                       '(write_uleb_obu_size directly or through a helper)' % D)
                 continue
-            s = good[0]
-            h, p = pstr(strip(s['e'][2][0])), pstr(strip(s['e'][2][1]))
-            if p == '0':
+            val = good[0]
+            if val[0] == '0':
                 rep.ob('C02.FRAME', key, True, f.loc(hev), 'empty payload: header followed by size field 0 on the same buffer')
                 continue
-            moves = [ev for ev, n2 in f.calls('obu_mem_move')
-                     if (pstr(strip(ev['e'][2][0])), pstr(strip(ev['e'][2][1])), pstr(strip(ev['e'][2][2]))) == (h, p, D)]
-            okm = [m for m in moves if f.ev_dominates(hev, m) and f.ev_dominates(m, s)]
+            okg = [g for g in gaps if f.ev_dominates(hev, g[1]) and (g[1] is val[2] or f.ev_dominates(g[1], val[2]))]
+            same = [g for g in okg if g[0] == val[0]]
             # the header size used must come from write_obu_header's result
             hdr_ok = any(e2['k'] == 'st' and e2['e'][0] == 'a' and strip(e2['e'][3]) == strip(hev['e']) for e2 in f.events(('st',))) or \
                 any(e2['k'] == 'decl' and e2.get('e') is not None and strip(e2['e']) == strip(hev['e']) for e2 in f.events(('decl',)))
-            rep.ob('C02.FRAME', key, bool(okm) and hdr_ok, f.loc(hev),
-                   'header -> obu_mem_move(%s, %s, %s) -> write_uleb_obu_size(%s, %s, %s)%s' %
-                   (h, p, D, h, p, D, '' if okm else ' : NO obu_mem_move with the same (header size, payload size, buffer) between header and size'))
+            rep.ob('C02.FRAME', key, bool(same) and hdr_ok, f.loc(hev),
+                   ('header -> gap of uleb_size(%s) bytes opened by a memmove -> size field value %s on %s' % (val[0][:60], val[0][:60], D)) if same else
+                   ('no payload move between header and size field' if not okg else
+                    'the gap opened for the size field is sized for uleb(%s) but the value written is %s: when the two need a different number '
+                    'of leb128 bytes the payload is shifted by the wrong amount and the packet stops being a valid OBU sequence' % (okg[0][0][:80], val[0][:80])))
     rep.floor('C02.FRAME', 5)
 
     # ---------------- SPS
